@@ -58,7 +58,7 @@ QidList(T, s, e, acc) ==    \* qid [ (n) ] [ASC|DESC] {, ...} filling [s, e)
   ELSE LET p == IF Tk(T, s + 1).k = "lp" THEN MatchParen(T, s + 1) + 1 ELSE s + 1
            o == IF p < e /\ T[p].k = "word" /\ T[p].u \in {"ASC", "DESC"} THEN T[p].u ELSE ""
            nx == IF o = "" THEN p ELSE p + 1
-           item == [n |-> T[s].v, o |-> o]
+           item == [n |-> T[s].v, o |-> o, pfx |-> IF Tk(T, s + 1).k = "lp" THEN Texts(T, s + 2, p - 1) ELSE <<>>]
        IN IF nx >= e THEN GOk(Append(acc, item), e)
           ELSE IF T[nx].k = "comma" THEN QidList(T, nx + 1, e, Append(acc, item)) ELSE GErr("malformed_column_list")
 
@@ -75,7 +75,11 @@ TableElemAt(B, T, D, s, e) ==
        LET lp == IF Tk(T, a + 2).k = "lp" THEN a + 2 ELSE IF Tk(T, a + 3).k = "lp" THEN a + 3 ELSE 0
            m == IF lp = 0 THEN 0 ELSE MatchParen(T, lp)
            cols == IF m = 0 THEN GErr("primary_key_without_column_list") ELSE QidList(T, lp + 1, m, <<>>)
-       IN IF ~cols.ok THEN cols ELSE GOk([kind |-> "primary", name |-> cname, cols |-> cols.v, rest |-> Texts(T, m + 1, e)], e)
+           \* MySQL accepts (and ignores) an index name after PRIMARY KEY
+           pkname == IF cname # "" THEN cname ELSE IF B = "mysql" /\ lp = a + 3 /\ T[a + 2].k = "qid" THEN T[a + 2].v ELSE ""
+       IN IF ~cols.ok THEN cols
+          ELSE IF lp = a + 3 /\ ~(B = "mysql" /\ T[a + 2].k = "qid") THEN GErr("unexpected_token_after_PRIMARY_KEY")
+          ELSE GOk([kind |-> "primary", name |-> pkname, cols |-> cols.v, rest |-> Texts(T, m + 1, e)], e)
      ELSE IF IsWordU(T, a, "UNIQUE") \/ ((IsWordU(T, a, "KEY") \/ IsWordU(T, a, "INDEX") \/ IsWordU(T, a, "FULLTEXT")) /\ B = "mysql") THEN
        LET RECURSIVE FirstLp(_)
            FirstLp(i) == IF i >= e THEN 0 ELSE IF T[i].k = "lp" /\ D[i] = D[s] THEN i ELSE FirstLp(i + 1)
@@ -322,6 +326,7 @@ Params2(p, s) == <<"(", NatToStr(p), ",", NatToStr(s), ")">>
 Param1(n) == <<"(", NatToStr(n), ")">>
 OptLen(t, f) == IF f \in DOMAIN t THEN Param1(t[f]) ELSE <<>>
 OptPS(t) == IF "p" \in DOMAIN t /\ "s" \in DOMAIN t THEN Params2(t.p, t.s) ELSE <<>>
+RECURSIVE TypeOk(_, _, _, _)
 TypeOk(B, t, ty, autoinc) ==
   LET Is(names, suffix) == \E nm \in names : ty = nm \o suffix IN
   IF B = "mysql" THEN
@@ -346,6 +351,7 @@ TypeOk(B, t, ty, autoinc) ==
       [] t.k = "Boolean" -> Is({<<"BOOL">>, <<"BOOLEAN">>, <<"TINYINT", "(", "1", ")">>}, <<>>)
       [] t.k \in {"Json", "JsonBinary"} -> Is({<<"JSON">>}, <<>>)
       [] t.k = "Uuid" -> Is({<<"BINARY", "(", "16", ")">>, <<"CHAR", "(", "36", ")">>}, <<>>)
+      [] t.k = "Custom" -> ty = <<UpperStr(t.name)>>
       [] t.k = "Enum" -> Len(ty) >= 4 /\ ty[1] = "ENUM" /\ ty[2] = "(" /\ ty[Len(ty)] = ")" /\ [i \in 1..Len(t.variants) |-> ty[2 * i + 1]] = [i \in 1..Len(t.variants) |-> UpperStr(t.variants[i])] /\ Len(ty) = 2 * Len(t.variants) + 2
       [] OTHER -> TRUE
   ELSE
@@ -369,9 +375,17 @@ TypeOk(B, t, ty, autoinc) ==
       [] t.k = "Boolean" -> Is({<<"BOOL">>, <<"BOOLEAN">>}, <<>>)
       [] t.k = "Json" -> Is({<<"JSON">>}, <<>>) [] t.k = "JsonBinary" -> Is({<<"JSONB">>}, <<>>) [] t.k = "Uuid" -> Is({<<"UUID">>}, <<>>)
       [] t.k = "Cidr" -> Is({<<"CIDR">>}, <<>>) [] t.k = "Inet" -> Is({<<"INET">>}, <<>>) [] t.k = "MacAddr" -> Is({<<"MACADDR">>}, <<>>) [] t.k = "LTree" -> Is({<<"LTREE">>}, <<>>)
+      [] t.k \in {"Enum", "Custom"} -> ty = <<UpperStr(t.name)>>                   \* a user-defined type by its name
+      [] t.k = "Array" -> Len(ty) >= 3 /\ ty[Len(ty) - 1] = "[" /\ ty[Len(ty)] = "]" /\ TypeOk(B, t.elem, SubSeq(ty, 1, Len(ty) - 2), FALSE)
+      [] t.k = "Interval" -> Is({<<"INTERVAL">>}, OptLen(t, "n"))
+      [] t.k = "Vector" -> Is({<<"VECTOR">>}, OptLen(t, "n"))
       [] OTHER -> TRUE
 \* declarations dialect B has no form for (outside C14's domain for B)
+\* a column prefix length (MySQL `col (n)`) among the columns of an index or key
+HasPrefixCol(cs) == \E i \in DOMAIN cs : "p" \in DOMAIN cs[i]
 Unsupported14(B, d) ==
+  \* PostgreSQL has no prefix indexes (`"c" (8)` would be a call of a function c)
+  (B = "pg" /\ ((d.stmt = "index_create" /\ HasPrefixCol(d.cols)) \/ (d.stmt = "table_create" /\ "indexes" \in DOMAIN d /\ \E i \in DOMAIN d.indexes : HasPrefixCol(d.indexes[i].cols)))) \/
   (d.stmt = "table_create" /\ B = "pg" /\ "indexes" \in DOMAIN d /\ \E i \in DOMAIN d.indexes : ~("primary" \in DOMAIN d.indexes[i] /\ d.indexes[i].primary) /\ ~("unique" \in DOMAIN d.indexes[i] /\ d.indexes[i].unique))
   \/ (d.stmt = "table_create" /\ B = "pg" /\ ("engine" \in DOMAIN d \/ "collate" \in DOMAIN d \/ "character_set" \in DOMAIN d))
   \* MySQL has no partial indexes, covering columns or NULLS NOT DISTINCT; the builder drops them silently there
@@ -381,6 +395,6 @@ Unsupported14(B, d) ==
         (d.stmt = "table_create" /\ \E i \in DOMAIN d.cols : VirtualGen(d.cols[i]))
         \/ (d.stmt = "table_alter" /\ \E i \in DOMAIN d.ops : "col" \in DOMAIN d.ops[i] /\ VirtualGen(d.ops[i].col)))
 DialectHasType(B, t) ==
-  IF B = "mysql" THEN t.k \notin {"Interval", "Array", "Vector", "Cidr", "Inet", "MacAddr", "LTree", "Custom"}
-  ELSE t.k \notin {"Year", "Custom", "Enum", "Array", "Vector", "Interval"}
+  IF B = "mysql" THEN t.k \notin {"Interval", "Array", "Vector", "Cidr", "Inet", "MacAddr", "LTree"}
+  ELSE t.k \notin {"Year"}
 =============================================================================
